@@ -216,3 +216,223 @@ def std_call(d, args, ev):
         a, c = ev.ev(args[0]), ev.ev(args[1])
         return min(a, c) if m.group(1) == "min" else max(a, c)
     return None
+
+
+import re
+
+from mirq import strip_refs
+
+IDENT = re.compile(r"<impl \[T\]>::iter$|IntoIterator::into_iter$|Deref::deref$|::as_slice$|AsRef::as_ref$|Borrow::borrow$|iter::Iterator::by_ref$|Clone::clone$|::as_ref$")
+ASCII = {
+    "is_ascii_alphanumeric": lambda v: (48 <= v <= 57) or (65 <= v <= 90) or (97 <= v <= 122),
+    "is_ascii_alphabetic": lambda v: (65 <= v <= 90) or (97 <= v <= 122),
+    "is_ascii_digit": lambda v: 48 <= v <= 57,
+    "is_ascii_uppercase": lambda v: 65 <= v <= 90,
+    "is_ascii_lowercase": lambda v: 97 <= v <= 122,
+    "is_ascii": lambda v: v < 128,
+}
+
+
+class Model:
+    """Evaluator with models of the pure std idioms that small table-like functions use (arrays and slices of known bytes,
+    ranges, `iter().all(closure)`, `==` on arrays, ASCII class tests, Option adaptors, le/be byte conversions) and of calls to
+    small workspace functions / closures (through their own decision tables).  `base`: the origin that stands for the input
+    byte array (its value is `self.bytes`); `extra_leaf` / `extra_call`: rule-specific sources; `local_prefix`: module whose
+    functions may be entered."""
+
+    def __init__(self, ctx, body, base, local_prefix="", extra_leaf=None, extra_call=None):
+        self.ctx = ctx
+        self.body = body
+        self.base = base
+        self.bytes = None
+        self.args = None
+        self.local_prefix = local_prefix
+        self.extra_leaf = extra_leaf
+        self.extra_call = extra_call
+        self.ev = Evaluator(self.leaf, self.call)
+
+    # ---- values: ints, ('list', tuple), ('range', lo, hi|None), ('opt', has, v)
+    def leaf(self, o):
+        if self.extra_leaf is not None:
+            v = self.extra_leaf(o, self)
+            if v is not None:
+                return v
+        if o[0] == "value":
+            return o[1]
+        if self.args is not None and o[0] == "arg" and o[1] in self.args:
+            return self.args[o[1]]
+        x = strip_refs(o)
+        if x is not o:
+            o = x
+            if self.args is not None and o[0] == "arg" and o[1] in self.args:
+                return self.args[o[1]]
+        if self.base is not None and o == self.base:
+            return ("list", tuple(self.bytes))
+        if o[0] == "cindex":
+            v = self.ev.ev(o[1])
+            if isinstance(v, tuple) and v[0] == "list":
+                i = o[2] if not o[3] else len(v[1]) - o[2]
+                if not 0 <= i < len(v[1]):
+                    raise Panic("index")
+                return v[1][i]
+            raise Unknown("constant index into a non-array")
+        if o[0] == "index":
+            v = self.ev.ev(o[1])
+            i = self.ev.ev(o[2])
+            return self.index(v, i)
+        if o[0] == "agg":
+            d = o[1]
+            if d and d[0] == "array":
+                return ("list", tuple(self.ev.ev(x) for x in o[2]))
+            if d and d[0] == "adt" and "ops::range::Range" in str(d[1]):
+                nm = str(d[1]).split("::")[-1]
+                vals = [self.ev.ev(x) for x in o[2]]
+                if nm == "Range":
+                    return ("range", vals[0], vals[1])
+                if nm == "RangeTo":
+                    return ("range", 0, vals[0])
+                if nm == "RangeFrom":
+                    return ("range", vals[0], None)
+                if nm == "RangeToInclusive":
+                    return ("range", 0, vals[0] + 1)
+                if nm == "RangeFull":
+                    return ("range", 0, None)
+        if o[0] == "const" and o[1] is None and isinstance(o[2], str) and "::" in o[2] and "[u8" in str(o[3]):
+            cs = self.ctx.ast.const(o[2].split("::")[-1])
+            if len(cs) == 1:
+                v = cs[0][3]["value"]
+                if v.get("elems") is not None and all(e.get("t") == "int" for e in v["elems"]):
+                    return ("list", tuple(int(e["v"]) for e in v["elems"]))
+                if v.get("k") == "Repeat" or v.get("repeat"):
+                    pass
+        # the I/O that produced the bytes is assumed to have succeeded (its failure is returned by `?` before any byte is looked at)
+        if o[0] == "discr" and o[1][0] == "call" and (o[1][1] or "").endswith("Try::branch"):
+            inner = o[1][3][0] if o[1][3] else None
+            if inner is not None and inner[0] == "call" and not (self.local_prefix and (inner[2] or inner[1] or "").startswith(self.local_prefix)):
+                return 0
+        return None
+
+    def index(self, v, i):
+        if not (isinstance(v, tuple) and v[0] == "list"):
+            raise Unknown("index into a non-array")
+        if isinstance(i, tuple) and i[0] == "range":
+            hi = len(v[1]) if i[2] is None else i[2]
+            if not (0 <= i[1] <= hi <= len(v[1])):
+                raise Panic("slice range")
+            return ("list", v[1][i[1]:hi])
+        if isinstance(i, int):
+            if not 0 <= i < len(v[1]):
+                raise Panic("index")
+            return v[1][i]
+        raise Unknown("index kind")
+
+    def call(self, d, rd, args, ev):
+        name = rd or d
+        if self.extra_call is not None:
+            v = self.extra_call(d, rd, args, self)
+            if v is not None:
+                return v
+        v = std_call(d, args, ev)
+        if v is not None:
+            return v
+        m = re.search(r"Option::<T>::(map_or|map|unwrap_or|is_some|is_none|unwrap_or_default|and_then|filter|is_some_and)$", d)
+        if m:
+            ov = ev.ev(args[0])
+            if not (isinstance(ov, tuple) and ov[0] == "opt"):
+                raise Unknown("Option adaptor on an unknown value")
+            op = m.group(1)
+
+            def clo(a, x):
+                if a[0] == "agg" and a[1][0] == "closure":
+                    return self.eval_body(a[1][1], {2: x})
+                if a[0] == "fnconst":
+                    return self.call(a[1], a[2], [("value", x)], ev)
+                raise Unknown("callable")
+            if op == "is_some":
+                return 1 if ov[1] else 0
+            if op == "is_none":
+                return 0 if ov[1] else 1
+            if op == "unwrap_or":
+                return ov[2] if ov[1] else ev.ev(args[1])
+            if op == "unwrap_or_default":
+                return ov[2] if ov[1] else 0
+            if op == "map_or":
+                return clo(args[2], ov[2]) if ov[1] else ev.ev(args[1])
+            if op == "map":
+                return ("opt", True, clo(args[1], ov[2])) if ov[1] else ov
+            if op == "and_then":
+                return clo(args[1], ov[2]) if ov[1] else ov
+            if op == "filter":
+                return ov if ov[1] and clo(args[1], ov[2]) else ("opt", False, None)
+            if op == "is_some_and":
+                return 1 if ov[1] and clo(args[1], ov[2]) else 0
+        if IDENT.search(d) or IDENT.search(name):
+            return ev.ev(args[0])
+        if re.search(r"Index::index$", d) and len(args) == 2:
+            return self.index(ev.ev(args[0]), ev.ev(args[1]))
+        if re.search(r"RangeInclusive::<Idx>::new$", d):
+            return ("range", ev.ev(args[0]), ev.ev(args[1]) + 1)
+        m = re.search(r"<impl u8>::(is_ascii\w*)$|<impl char>::(is_ascii\w*)$", d)
+        if m and (m.group(1) or m.group(2)) in ASCII:
+            return 1 if ASCII[m.group(1) or m.group(2)](ev.ev(args[0])) else 0
+        if re.search(r"Iterator::(all|any)$", d) and len(args) == 2 and args[1][0] == "agg" and args[1][1][0] == "closure":
+            seq = ev.ev(args[0])
+            if not (isinstance(seq, tuple) and seq[0] == "list"):
+                raise Unknown("iterator over a non-array")
+            res = [self.eval_body(args[1][1][1], {2: x}) for x in seq[1]]
+            return (1 if all(res) else 0) if d.endswith("all") else (1 if any(res) else 0)
+        if re.search(r"cmp::PartialEq::(eq|ne)$", d) and len(args) == 2:
+            a, b = ev.ev(args[0]), ev.ev(args[1])
+            return 1 if (a == b) == d.endswith("eq") else 0
+        if re.search(r"<impl u32>::from_le_bytes$", d):
+            v = ev.ev(args[0])
+            if isinstance(v, tuple) and v[0] == "list" and len(v[1]) == 4:
+                return int.from_bytes(bytes(v[1]), "little")
+        if re.search(r"<impl u32>::from_be_bytes$", d):
+            v = ev.ev(args[0])
+            if isinstance(v, tuple) and v[0] == "list" and len(v[1]) == 4:
+                return int.from_bytes(bytes(v[1]), "big")
+        if self.local_prefix and name.startswith(self.local_prefix) and self.ctx.mir.body(name) is not None:
+            return self.eval_body(name, {i + 1: ev.ev(a) for i, a in enumerate(args)})
+        return None
+
+    _ROWS = {}
+    _MEMO = {}
+
+    def eval_body(self, name, argvals):
+        """value returned by a small workspace function / closure for concrete arguments (through its own decision table)"""
+        key = (id(self.ctx.mir), name, tuple(sorted(argvals.items())))
+        if key in Model._MEMO:
+            return Model._MEMO[key]
+        v = self._eval_body(name, argvals)
+        Model._MEMO[key] = v
+        return v
+
+    def _eval_body(self, name, argvals):
+        b = self.ctx.mir.body(name)
+        if b is None:
+            raise Unknown("body %s" % name)
+        sub = Model(self.ctx, b, None, self.local_prefix, self.extra_leaf, self.extra_call)
+        sub.args = argvals
+        rk = (id(self.ctx.mir), name)
+        if rk not in Model._ROWS:
+            Model._ROWS[rk] = b.decision_rows()
+        rows = Model._ROWS[rk]
+        m = sub.ev.matching_rows(rows)
+        vals = set()
+        for r in m:
+            ret = r[1]
+            if ret[1].startswith("call:"):
+                v = sub.call(ret[1][5:], ret[1][5:], list(ret[3]), sub.ev)
+                if v is None:
+                    raise Unknown("call %s" % ret[1][5:])
+                vals.add(v)
+            elif ret[3]:
+                vals.add(sub.ev.ev(ret[3][0]))
+            else:
+                raise Unknown("result of %s" % name)
+        if len(vals) != 1:
+            raise Unknown("ambiguous result of %s" % name)
+        return vals.pop()
+
+
